@@ -159,6 +159,16 @@ class AWSElastiCacheHashClient(HashClient):
         """
         old_clients = self.clients.copy()
         self.clients.clear()
+        # Take the previous nodes out of rotation, otherwise keys keep being
+        # routed to nodes that are gone.
+        for key in old_clients:
+            try:
+                self.hasher.remove_node(key)
+            except ValueError:
+                # already out of rotation (marked dead)
+                pass
+        self._failed_clients.clear()
+        self._dead_clients.clear()
 
         for server in self._get_nodes_list():
             self.add_server(normalize_server_spec(server))
